@@ -58,6 +58,23 @@ func main() {
 			os.Exit(selftestSimConstructs(n))
 		}
 		usage()
+	case "run-seg-tags": // debug: run-seg-tags <tags> <segment.json>   (VERIF_REPO selects the tree)
+		b, err := NewBuildTags(repoRoot(), false, os.Args[2])
+		if err != nil {
+			fmt.Fprintln(os.Stderr, err)
+			os.Exit(2)
+		}
+		defer b.Close()
+		sb, _ := os.ReadFile(os.Args[3])
+		var seg Segment
+		json.Unmarshal(sb, &seg)
+		out := b.RunSegment(&seg, RunOpts{})
+		if out.Res != nil {
+			jb, _ := json.MarshalIndent(out.Res, "", " ")
+			fmt.Println(string(jb))
+		} else {
+			fmt.Println(out.Stderr)
+		}
 	case "run-seg":
 		if len(os.Args) < 3 {
 			usage()
